@@ -68,6 +68,28 @@ def fmt_supports(fmt, w: World, t, top=True, in_key=False):
     return False
 
 
+def has_enum_key(w: World, t, seen=None):
+    seen = set() if seen is None else seen
+    k = t[0]
+    if k == "dict":
+        kt = t[1]
+        while kt[0] in ("newtype", "annot"):
+            kt = kt[2] if kt[0] == "newtype" else kt[1]
+        return kt[0] == "enum" or has_enum_key(w, t[2], seen)
+    if k in ("list", "tuphom", "set", "fset", "opt", "annot"):
+        return has_enum_key(w, t[1], seen)
+    if k == "newtype":
+        return has_enum_key(w, t[2], seen)
+    if k == "tuple":
+        return any(has_enum_key(w, x, seen) for x in t[1])
+    if k in ("class", "self"):
+        if t[1] in seen:
+            return False
+        seen.add(t[1])
+        return any(f.type is not None and has_enum_key(w, f.type, seen) for f in w.specs[t[1]].fields)
+    return False
+
+
 def check_c16(v: Verdict, n_worlds: int):
     rng = random.Random(v.seed * 7919 + 1616)
     hist = {"formats": sorted(FORMATS), "not_present": ABSENT, "worlds": 0, "round_trips": {f: 0 for f in FORMATS}, "skipped_outside_limits": 0,
@@ -112,7 +134,11 @@ def check_c16(v: Verdict, n_worlds: int):
                             v.violation("dumps failed on a supported value", {**desc, "raised": repr(e)[:300]})
                         continue
                     except Exception as e:
-                        v.violation("dumps failed on a supported value", {**desc, "raised": repr(e)[:300]})
+                        if f == "msgspec" and "str-like or number-like keys" in str(e) and has_enum_key(w, t):
+                            hist["f30_hits"] = hist.get("f30_hits", 0) + 1
+                            v.finding("F30", "msgspec converter: enum members left as mapping keys", {**desc, "raised": repr(e)[:200]})
+                        else:
+                            v.violation("dumps failed on a supported value", {**desc, "raised": repr(e)[:300]})
                         continue
                     try:
                         y = conv.loads(data, w.to_py(t))
